@@ -37,6 +37,13 @@ def gen_spec(r, i, stream):
             'gen': r.choice(['default', 'batch', 'resample', 'noisy']), 'no_bounds': kind == '1d' and r.random() < 0.5, 'twin': True,
             # BatchNorm cannot be differentiated three times (2-D Laplace residual): Dropout only for Solver2D
             'net': r.choice(['plain', 'plain', 'dropout', 'batchnorm' if kind != '2d' else 'dropout'])}
+    # one scenario in five runs with validation disabled (n_batches_valid=0: best model tracked by the training loss), always with a
+    # custom loss so that the epochs after a load can be made worse than the saved best
+    if i % 5 == 3:
+        spec['no_valid'] = True
+        spec['custom_loss'] = kind != 'bundle' or True
+        if spec['opt'] == 'lbfgs':
+            spec['opt'] = 'adam'         # torch warns that closure optimisers snapshot the best nets after the step when validation is off
     if spec['opt'] == 'lbfgs' and spec['gen'] in ('batch', 'resample'):
         # outside C18 (reported separately): a closure optimiser re-runs backward over a batch that ResampleGenerator /
         # BatchGenerator produced by indexing, and torch refuses the second backward through that shared graph
@@ -51,7 +58,7 @@ def gen_spec(r, i, stream):
         else:
             ops.append(r.choice([['saveload'], ['saveload'], ['save']]))
         # after a load, make the next losses larger now and then, so that best tracking is put to the test
-        ops.append(['fit', r.randint(1, 3), r.choice([1.0, 1.0, 64.0]) if spec['custom_loss'] else 1.0])
+        ops.append(['fit', r.randint(1, 3), (64.0 if spec.get('no_valid') else r.choice([1.0, 1.0, 64.0])) if spec['custom_loss'] else 1.0])
     spec['ops'] = ops
     return spec
 
@@ -108,7 +115,7 @@ def main():
     ck.rule = ('scenario = (stream a: dill as installed | b: dill.dump(byref=True) shim) x solver kind (Solver1D, Solver2D, BundleSolver1D) x '
                'conditions (numbers; functions with / without retrievable source; bundle lookup dict) x train generator (noisy grid | uniform | '
                'BatchGenerator | ResampleGenerator, all behind counting spies; Solver1D with and without t_min/t_max) x optimiser SGD | Adam | ClippedAdam(Adam) subclass | user-written Optimizer | LBFGS x default|custom loss x '
-               'network plain FCNN | with Dropout | with BatchNorm1d (training flags observed) x eq_param_index on/off x 0..5 epochs before the first save x 1..3 cycles of [checkpoint] save|save+load, fit 1..3 (loss scale 1 or 64); '
+               'network plain FCNN | with Dropout | with BatchNorm1d (training flags observed) x eq_param_index on/off x n_batches_valid default | 0 (validation disabled, oracle only) x 0..5 epochs before the first save x 1..3 cycles of [checkpoint] save|save+load, fit 1..3 (loss scale 1 or 64); '
                'after every operation the observable solver state (fingerprints of nets/optimiser, histories, lowest loss, best nets, condition '
                'dictionaries, loss function, eq_param_index, whether the next fit works, draw counts of the generator spies, changes of the global RNG '
                'states across save) is compared with Persist.v inside Coq; every scenario is re-run on a never-saved, never-loaded twin (same seeds): '
